@@ -2,7 +2,8 @@
    generated configurations, the real httpp.dumpRequest on requests parsed by net/http, and
    textproto.CanonicalMIMEHeaderKey. *)
 From Coq Require Import List ZArith Bool.
-Require Import MTX.Lib.Heap MTX.Model.C11_Clone MTX.Model.C07_Redact MTX.Model.C07_Dump.
+Require Export MTX.Lib.Heap MTX.Model.C07_Redact MTX.Model.C07_Dump.
+Require Import MTX.Model.C11_Clone.
 Import ListNotations.
 Local Open Scope Z_scope.
 
